@@ -30,3 +30,34 @@ pub fn project(args: &[String]) -> i32 {
     println!("{}", serde_json::to_string_pretty(&rsproj::project(&o.generated)).unwrap());
     0
 }
+
+/// vharness genstats --cases <ndjson> [--show n]: compile every generated module set, print a
+/// status histogram (how much of the grammar the compiler accepts)
+pub fn genstats(args: &[String]) -> i32 {
+    use crate::{notation::Table, util};
+    let cases = util::read_ndjson(util::arg(args, "--cases").expect("--cases"));
+    let show: usize = util::arg(args, "--show").and_then(|s| s.parse().ok()).unwrap_or(0);
+    let mut hist = std::collections::BTreeMap::<String, usize>::new();
+    let mut msgs = std::collections::BTreeMap::<String, (usize, String)>::new();
+    for (i, c) in cases.iter().enumerate() {
+        let t = Table::from_json(c);
+        let text = t.text();
+        if i < show {
+            println!("----- case {i}\n{text}");
+        }
+        let (o, _) = run::compile_rasn1(&text);
+        let st = if o.status == "ok" && !o.warnings.is_empty() { "warn".to_string() } else { o.status.clone() };
+        *hist.entry(st).or_default() += 1;
+        let m = format!("{}{}{}", o.error, o.panic_msg, o.warnings.first().cloned().unwrap_or_default());
+        if !m.is_empty() {
+            let key: String = m.chars().filter(|c| !c.is_ascii_digit()).take(90).collect();
+            let e = msgs.entry(key).or_insert((0, text.clone()));
+            e.0 += 1;
+        }
+    }
+    println!("{hist:?}");
+    for (k, (n, text)) in msgs {
+        println!("{n} x {k}\n   e.g. {}", text.replace('\n', "\n        "));
+    }
+    0
+}
